@@ -74,6 +74,25 @@ def main():
                 rep = (m.get("replays") or [""])[0].replace("|", "/").replace("\n", " ")[:160]
                 L.append("| %s | %s | %s | %s |" % (name, "yes" if m.get("detected") else "NO", how, rep))
             L.append("")
+        ben = sorted(glob.glob(os.path.join(core.ROOT, "benign", pid + "-*", "meta.json")))
+        if ben:
+            L.append("*Property-preserving changes (the property still holds; `quiet` = exit 0, `unproved` = only "
+                     "`no-failing-input-found` lines because the regenerated model / a correspondence no longer checks, "
+                     "`FALSE-ALARM` = a concrete VIOLATION, i.e. the check was wrong and has been corrected when the "
+                     "last column says so):*")
+            L.append("")
+            L.append("| change | what it does | first verdict | verdict now |")
+            L.append("|---|---|---|---|")
+            for s in ben:
+                m = json.load(open(s))
+                name = os.path.basename(os.path.dirname(s))
+                note = os.path.join(os.path.dirname(s), "note.md")
+                what = ""
+                if os.path.exists(note):
+                    ls = [l.strip() for l in open(note).read().splitlines() if l.strip() and not l.startswith("#")]
+                    what = " ".join(ls[:2]).replace("|", "/")[:200]
+                L.append("| %s | %s | %s | %s |" % (name, what, m.get("first_pass_verdict") or m.get("verdict"), m.get("verdict")))
+            L.append("")
     L.insert(3, "%d property theorems in total across %d properties.\n" % (tot_thm, len(ids)))
     L.append(END)
     text = "\n".join(L) + "\n"
